@@ -1295,6 +1295,8 @@ class Models:
             return VSeq(so.EMPTY_PAIRS, 'pair')
         if name == 'empty_strs':
             return VSeq(z3.Empty(so.StrSeq), 'str')
+        if name == 'pv_equal':
+            return VBool(eng.pv_eq(T(args[0], so.PV), T(args[1], so.PV)))
         if name == 'in_strs':
             return VBool(z3.Select(args[1].t, args[0].t))
         if name == 'strs_remove':
